@@ -840,7 +840,7 @@ func checkC13(e *Env) {
 	// again: a call during which the source works must not depend on the earlier failures
 	transientCalls := e.transientHistories(drv, "C13", e.pick(60, 1000), func(c *transientCall) {
 		// (whether a successful call encodes the delivered bytes correctly is C06's question)
-		if why := c.workingSourceVerdict(); why != "" && c.res.Err != nil {
+		if why := c.workingSourceVerdict(); why != "" && (c.res.Err != nil || c.res.Panic != "") {
 			e.Violate(&Violation{What: "the outcome depends on an earlier failure of the source: " + why, Ops: c.ops[:c.i+1], Observed: c.res, Detail: historyNote})
 		}
 	})
